@@ -224,6 +224,92 @@ func TestVerifC11Netns(t *testing.T) {
 		}
 	}
 	vTentative(r, base)
+	vVanish(r, base)
+}
+
+// vVanish: the interface disappears while its connection is held (a hot-plugged
+// or virtual interface removed under the daemon).  The restore of autoconf then
+// fails with "no such file" from the real /proc/sys backend — with the error
+// chain the real backend produces, not a bare sentinel — and must be tolerated:
+// Dial reports no error for it, the socket is gone, nothing is leaked.
+func vVanish(r *vlib.Run, base int) {
+	sh := func(args ...string) error { return exec.Command(args[0], args[1:]...).Run() }
+	n := 0
+	for rep := 0; rep < r.Pick(1, 3); rep++ {
+		for _, a0 := range []string{"1", "0"} {
+			for _, outcome := range []string{"nil", "cancel"} {
+				id := fmt.Sprintf("vanish/%d/%s/%s", rep, a0, outcome)
+				if !r.Mine(id) {
+					continue
+				}
+				r.Begin(id)
+				n++
+				vw, vx := fmt.Sprintf("vw%d", n), fmt.Sprintf("vx%d", n)
+				if err := sh("ip", "link", "add", vw, "type", "veth", "peer", "name", vx); err != nil {
+					r.Inconclusive(id, "cannot create the veth pair: "+err.Error())
+					continue
+				}
+				conf := "/proc/sys/net/ipv6/conf/" + vw + "/"
+				_ = os.WriteFile(conf+"accept_dad", []byte("0"), 0o644)
+				_ = os.WriteFile(conf+"dad_transmits", []byte("0"), 0o644)
+				_ = os.WriteFile(conf+"accept_ra", []byte("0"), 0o644)
+				_ = os.WriteFile(conf+"autoconf", []byte(a0), 0o644)
+				_ = sh("ip", "link", "set", vx, "up")
+				_ = sh("ip", "link", "set", vw, "up")
+				ready := false
+				for i := 0; i < 150 && !ready; i++ {
+					out, _ := exec.Command("ip", "-6", "addr", "show", "dev", vw, "scope", "link").Output()
+					ready = strings.Contains(string(out), "fe80") && !strings.Contains(string(out), "tentative")
+					if !ready {
+						time.Sleep(20 * time.Millisecond)
+					}
+				}
+				if !ready {
+					r.Inconclusive(id, "no usable link-local address appeared")
+					_ = sh("ip", "link", "del", vw)
+					continue
+				}
+				var logs strings.Builder
+				fs := &faultState{real: NewState()}
+				d := NewDialer(vw, fs, Advertise, log.New(&logs, "", 0))
+				ctx, cancel := context.WithCancel(context.Background())
+				runs := 0
+				during := ""
+				err := d.Dial(ctx, func(ctx context.Context, _ *DialContext) error {
+					runs++
+					during = vAutoconf(vw)
+					_ = sh("ip", "link", "del", vw)
+					if outcome == "cancel" {
+						cancel()
+						<-ctx.Done()
+					}
+					return nil
+				})
+				cancel()
+				socks := vRawSockets()
+				det := map[string]any{"autoconf_before": a0, "autoconf_while_held": during, "dial_error": fmt.Sprint(err), "task_runs": runs,
+					"raw6_sockets_over_base": socks - base, "state_calls": fs.log, "dialer_log": logs.String()}
+				r.Count("quiescent_observations", 1)
+				switch {
+				case runs != 1:
+					r.Inconclusive(id, fmt.Sprintf("the task ran %d times", runs))
+				case during != "0":
+					r.Violation(id, "netns:autoconf", "autoconf is "+during+" while an advertising connection is held, want 0", det)
+				case socks != base:
+					r.Violation(id, "netns:leak:", fmt.Sprintf("leak: %d NDP socket(s) still open after Dial returned (interface removed while connected)", socks-base), det)
+				case err != nil:
+					r.Violation(id, "netns:vanished-restore-not-tolerated", "the interface vanished while connected; restoring autoconf on it cannot work and must be tolerated, but Dial returned: "+err.Error(), det)
+				default:
+					r.Nontrivial(id)
+					r.Count("interface_vanished_while_connected", 1)
+					if r.WantSample() {
+						r.Sample(det)
+					}
+				}
+				_ = sh("ip", "link", "del", vw)
+			}
+		}
+	}
 }
 
 // vTentative drives the real dial path on an interface whose link-local
